@@ -277,3 +277,18 @@ class FnEval(RelEval):
             if found is not None and not isinstance(found, Opaque):
                 return self.is_oracle(found)
         return False
+
+
+def number(ev: RelEval, node: ast.AST, level_fn: Callable[[ast.AST], Optional[int]]) -> int:
+    """Integer value of an arithmetic expression over `level_fn` atoms (+, -, *, unary minus, constants)."""
+    val = level_fn(node)
+    if val is not None:
+        return val
+    if isinstance(node, ast.Constant) and isinstance(node.value, int) and not isinstance(node.value, bool):
+        return node.value
+    if isinstance(node, ast.UnaryOp) and isinstance(node.op, ast.USub):
+        return -number(ev, node.operand, level_fn)
+    if isinstance(node, ast.BinOp) and isinstance(node.op, (ast.Add, ast.Sub, ast.Mult)):
+        a, b = number(ev, node.left, level_fn), number(ev, node.right, level_fn)
+        return a + b if isinstance(node.op, ast.Add) else a - b if isinstance(node.op, ast.Sub) else a * b
+    raise AnalysisError(f"relational model: `{short(node)}` is not a recognised integer expression")
